@@ -381,7 +381,9 @@ func (r *rewriter) rewriteSelector(c *astutil.Cursor, n *ast.SelectorExpr) {
 		case name == "Exit":
 			st.exits++
 		case name == "Stdout" || name == "Stderr":
-			st.stdio++
+			// left alone: the harness swaps the os.Stdout/os.Stderr variables per run,
+			// which also captures what uninstrumented libraries (cobra) print
+			return
 		case name == "File":
 			st.fsCalls++
 		case name == "Stdin":
@@ -428,23 +430,6 @@ func (r *rewriter) rewriteCall(c *astutil.Cursor, n *ast.CallExpr) {
 		return
 	}
 	switch r.pkgOf(sel.X) {
-	case "fmt":
-		var w string
-		switch sel.Sel.Name {
-		case "Println":
-			w = "Fprintln"
-		case "Printf":
-			w = "Fprintf"
-		case "Print":
-			w = "Fprint"
-		default:
-			return
-		}
-		st.prints++
-		r.changed = true
-		n.Fun = &ast.SelectorExpr{X: sel.X, Sel: ast.NewIdent(w)}
-		n.Args = append([]ast.Expr{sim("Stdout")}, n.Args...)
-		return
 	case "log":
 		switch sel.Sel.Name {
 		case "Fatal", "Fatalf", "Fatalln", "Panic", "Panicf", "Panicln", "Print", "Printf", "Println":
